@@ -14,7 +14,7 @@ structure CH where
   client : ClientHandler.H := {}
   server : ServerSink.H := {}
   streams : Inbound.Streams := []
-deriving Repr
+deriving Repr, DecidableEq
 
 inductive Requester where
   | client | server
@@ -48,7 +48,7 @@ inductive Out where
   | ev (e : Ev)
   | client (o : ClientHandler.Out)
   | server (o : ServerSink.Out)
-deriving Repr
+deriving Repr, DecidableEq
 
 /-- `connection_keep_alive` -/
 def keepAlive (h : CH) : Bool := !h.client.halted
